@@ -357,7 +357,7 @@ spec("C09",
      cmd="c09", count=dict(quick=160, thorough=4000),
      vo_targets=["props/C09.vo"],
      level="proof",
-     rule="cases cycle through 2D render / 3D render / mesh / one tape evaluated from 12 threads at once, interpreter or JIT at random; each workload: reference without a pool (twice), three custom pools out of {1,2,3,4,5,8,12,16} threads run twice each with the schedule-point hook injecting yields and sleeps of up to 150us keyed to the task / poll number (different seed per run), the global pool, then cancellation injected through the hook at exact poll numbers {1, middle, last, random} with no pool / 2 / 4 threads, cancellation before the start, and a never-cancelled run under jitter; results compared bit for bit (images) or as sorted sets of oriented triangles over vertex bit patterns (meshes); task counts (raster root tiles after TileSizesRef trimming, octree tasks after the breadth-first expansion) and one-poll-per-tile are compared with the Coq model; distinct_nontrivial = cases (each a fresh shape and configuration); a quarter of the interpreter cases use the 3-register interpreter; meshing runs under identity / scale / translation-and-anisotropic-scale transforms with a share of flat polyhedral shapes; every eighth case checks the row fan-out of Image::apply_effect (heights 1..140, pools of 1, 2, 3, 5, 8, 16 threads) against the pool-less run",
+     rule="cases cycle through 2D render / 3D render / mesh / one tape evaluated from 12 threads at once, interpreter or JIT at random; each workload: reference without a pool (twice), three custom pools out of {1,2,3,4,5,8,12,16} threads run twice each with the schedule-point hook injecting yields and sleeps of up to 150us keyed to the task / poll number (different seed per run), the global pool, then cancellation injected through the hook at exact poll numbers {1, middle, last, random} with no pool / 2 / 4 threads, cancellation before the start, and a never-cancelled run under jitter; results compared bit for bit (images) or as sorted sets of oriented triangles over vertex bit patterns (meshes); task counts (raster root tiles after TileSizesRef trimming, octree tasks after the breadth-first expansion) and one-poll-per-tile are compared with the Coq model; distinct_nontrivial = cases (each a fresh shape and configuration); a quarter of the interpreter cases use the 3-register interpreter; meshing runs under identity / scale / translation-and-anisotropic-scale transforms with a share of flat polyhedral shapes; every eighth case checks the row fan-out of Image::apply_effect (heights 1..140, pools of 1, 2, 3, 5, 8, 16 threads) against the pool-less run; case 0: max((x y)^2 + ((x + x) + (x - y)), x) at 256x256, pixel-perfect, 3-register interpreter (its simplified tape is longer than the parent)",
      classify=classify_backend,
      assumptions=["data races inside a task, rayon's own correctness and the memory ordering of the relaxed cancel flag are outside the model; they are exercised by the perturbed differential runs only",
                   "a late-observed flag only moves the cancellation moment later in the time order, which the theorems quantify over"],
